@@ -433,6 +433,9 @@ func Catalogue(skew time.Duration) []Defect {
 		{"tkt-sname-empty", func(c *Case) { c.TktSName = []string{} }},
 		{"tkt-sname-krbtgt", func(c *Case) { c.TktSName = []string{"krbtgt", Realm} }},
 		{"tkt-sname-type-only", func(c *Case) { c.TktSNameType = 1 }},
+		{"tkt-sname-case-changed", func(c *Case) { c.TktSName = []string{"HTTP", "Host.test.gokrb5"} }},
+		{"tkt-sname-service-case-changed", func(c *Case) { c.TktSName = []string{"http", SvcHost} }},
+		{"tkt-realm-case-changed", func(c *Case) { c.TktRealm = "test.gokrb5" }},
 		{"tkt-usage-11", func(c *Case) { c.TktUsage = 11 }},
 		{"tkt-flip-first-bit", func(c *Case) { c.TktMut = CipherMut{"flip", 0} }},
 		{"tkt-flip-middle-bit", func(c *Case) { c.TktMut = CipherMut{"flip", 300} }},
@@ -490,4 +493,15 @@ func otherLabel(et int32) int32 {
 		return rcrypto.AES128
 	}
 	return rcrypto.AES256
+}
+
+// MintLike re-assembles the AP-REQ of an already minted request around the SAME ticket and authenticator ciphertexts
+// with the clear-text ticket fields of case c (what an on-path replayer can do without any key).
+func (w *World) MintLike(c Case, m Minted) []byte {
+	tkt := krbmsg.Ticket{VNO: 5, Realm: c.TktRealm, SName: krbmsg.PrincipalName{Type: c.TktSNameType, Names: c.TktSName},
+		Enc: krbmsg.EncryptedData{EType: c.TktLabel, Cipher: m.TicketCT}}
+	if c.TktKVNO != 0 {
+		tkt.Enc.KVNO = krbmsg.I64(int64(c.TktKVNO))
+	}
+	return krbmsg.APReq{PVNO: 5, MsgType: 14, APOptions: 0, Ticket: tkt.Encode(), Auth: krbmsg.EncryptedData{EType: c.Etype, Cipher: m.AuthCT}}.Encode()
 }
